@@ -422,7 +422,7 @@ def run(ctx):
                 ctx.check(cname, False, "%s/raised-on-compatible-data:%s@%s" % (cname, out[1], out[2]), "%s raised on compatible data: %s" % (cname, out[3]), wit, None)
             else:
                 ctx.check(cname, abs(out[1] - expv) <= 1e-9 * max(1.0, abs(expv)), "%s/wrong-value:genome-beyond-2**31" % cname, "%s over %.1f Gb = %r, interval arithmetic gives %r" % (cname, N / 1e9, out[1], expv), dict(wit, got=out[1], expected=expv), (cname, case["seed"]))
-    for i in range(ctx.pick(3, 40)):
+    for i in range(ctx.pick(3, 160)):
         ctx.run_case(big_similarity, {"seed": ctx.seed * 5003 + ctx.shard * 17 + i})
 
     ctx.sample({"genome": ["chr1", "chr2", "chr3"], "groups": ["chr3", "chr2"], "cuts": [1], "meaning": "entries fed in groups chr3 then chr2 as 2 chunks; every consumer must raise or hand back all entries"})
